@@ -51,7 +51,9 @@ FixPath(kind, p) ==
 DrawPath(kind, k) == FixPath(kind, RawPath(kind, k))
 Pick(a, b, c) == RandomElement({<<a>>, <<a, b>>, <<a, b, c>>, <<a, a>>})
 DrawPaths(kind, k) == IF kind = "invoke" THEN <<DrawPath(kind, 1)>> ELSE Pick(DrawPath(kind, 1), DrawPath(kind, 2), DrawPath(kind, 3))
-MkReq(k, j) == [kind |-> k, paths |-> DrawPaths(k, j), timed |-> RandomElement({TRUE, FALSE, FALSE})]
+\* late: the write / invoke of a timed interaction reaches the node only after the announced time window has passed
+MkReq2(k, j, t) == [kind |-> k, paths |-> DrawPaths(k, j), timed |-> t, late |-> t /\ k # "read" /\ RandomElement({TRUE, FALSE, FALSE, FALSE})]
+MkReq(k, j) == MkReq2(k, j, RandomElement({TRUE, FALSE, FALSE}))
 DrawReq(j) == MkReq(RandomElement({"read", "read", "write", "invoke"}), j)
 IDraw(k) == [node |-> DrawNode(k), acl |-> DrawIAcl(k), who |-> RandomElement(Requesters), req |-> DrawReq(k)]
 
@@ -66,6 +68,7 @@ Permitted(cfg2, ep, cl, l, kind) ==
   /\ AccessDecl[l[2]][Op(kind)] # None                          \* the element supports the operation at all
   /\ Allow({[idx |-> 1, acl |-> cfg2.acl, groups |-> <<>>]}, cfg2.who, [op |-> Op(kind), access |-> l[2], ep |-> ep, cl |-> CL(cl), dts |-> {}])
   /\ (kind # "read" /\ l[3]) => cfg2.req.timed                 \* timed-only elements act only inside a timed interaction
+  /\ ~cfg2.req.late                                             \* nothing is acted on once the timed window has expired
   /\ l[4] => cfg2.who.fab # 0                                   \* fabric-scoped commands need a requester with a fabric
 Match(p, ep, cl, id) == (p.ep = Wild \/ p.ep = ep) /\ (p.cl = Wild \/ p.cl = cl) /\ (p.leaf = Wild \/ p.leaf = id)
 IsWild(p) == p.ep = Wild \/ p.cl = Wild \/ p.leaf = Wild
@@ -75,7 +78,7 @@ SelOf(cfg2, p) ==
           THEN {<<ep, cl, x[1]>> : x \in {y \in Leaves(cfg2.node[ep][cl], cfg2.req.kind) : Match(p, ep, cl, y[1]) /\ Permitted(cfg2, ep, cl, y, cfg2.req.kind)}}
           ELSE {} : ep \in EpSet, cl \in {1, 2} }
 \* per path: the set it acts on / returns, and whether it must be answered with a status instead
-PathResult(cfg2, p) == [sel |-> SelOf(cfg2, p), status |-> ~IsWild(p) /\ SelOf(cfg2, p) = {}]
+PathResult(cfg2, p) == [sel |-> SelOf(cfg2, p), status |-> ~IsWild(p) /\ SelOf(cfg2, p) = {} /\ ~cfg2.req.late]
 
 VARIABLES icfg
 IInit == icfg = IDraw(0) /\ cfg = 0 /\ n = 0
